@@ -204,12 +204,42 @@ func c05(args []string) int {
 				lookup = maglev.New(names, uint64(maglev.SmallM)).Lookup(hash)
 			}
 		}
+		drawsOrig := append([]int64{}, draws...)
 		got := e.lb.ChooseHost(lctx)
 		rrAfter, _ := cluster.VerifRRIndex(e.lb)
 		if !hasRR {
 			rrAfter = 0
 		}
 		varAfter, errA := variable.GetString(vctx, cluster.VarProxyUpstreamIndex)
+		// ---- no state may leak from earlier calls: the same call on a FRESHLY built balancer in the same logical state
+		// (same hosts, cursor, scripted draws, request context) must give the same answer.  (Balancers with an EDF
+		// scheduler are excluded here: their pick order is covered by the wrr-sequence part and C06.)
+		if !cluster.VerifHasScheduler(e.lb) {
+			fresh := cluster.NewLoadBalancer(c05Info(e.pol.lbType, e.choice), cluster.NewHostSet(e.hosts))
+			if !cluster.VerifHasScheduler(fresh) {
+				cluster.VerifSetRand(fresh, rand.New(&queueSrc{vals: drawsOrig}))
+				cluster.VerifSetRRIndex(fresh, rr)
+				fctx := variable.NewVariableContext(context.Background())
+				if errB == nil {
+					variable.SetString(fctx, cluster.VarProxyUpstreamIndex, varBefore)
+				}
+				fgot := fresh.ChooseHost(&lbCtx{ctx: fctx, route: lctx.route})
+				frr, _ := cluster.VerifRRIndex(fresh)
+				if !hasRR {
+					frr = 0
+				}
+				fvar, ferr := variable.GetString(fctx, cluster.VarProxyUpstreamIndex)
+				same := (fgot == nil) == (got == nil) && frr == rrAfter && (ferr == nil) == (errA == nil) && fvar == varAfter
+				if same && got != nil && fgot.AddressString() != got.AddressString() {
+					same = false
+				}
+				if !same {
+					run.Fail("lb:"+e.pol.name+":result-differs-from-fresh-balancer", fmt.Sprintf("%s: the balancer in use answered differently from a freshly built one in the same state (hosts %+v, cursor %d, draws %v, ctx index %q)", e.pol.name, e.specs, rr, drawsOrig, varBefore),
+						map[string]interface{}{"policy": e.pol.name, "hosts": e.specs, "rr_cursor": rr, "draws": drawsOrig, "kind": e.kind})
+				}
+				run.Sum.Distribution["fresh-balancer-comparisons"]++
+			}
+		}
 		used := src.pos
 		if used > len(draws) {
 			used = len(draws) // the source returned 0 for the missing ones; emit them as 0
@@ -342,8 +372,12 @@ func c05(args []string) int {
 	for _, pol := range c05Policies {
 		for n := 0; n <= maxN; n++ {
 			for pat := 0; pat < 1<<n; pat++ {
-				for wv := 0; wv < 2; wv++ {
-					if n < 2 && wv == 1 {
+				counterPolicy := pol.name == "least_request" || pol.name == "least_connection" || pol.name == "peak_ewma"
+				for wv := 0; wv < 3; wv++ {
+					if n < 2 && wv >= 1 {
+						continue
+					}
+					if wv == 2 && !counterPolicy {
 						continue
 					}
 					specs := make([]hostSpec, n)
@@ -356,6 +390,19 @@ func c05(args []string) int {
 							}
 						}
 						specs[i] = hostSpec{W: w, Healthy: pat>>i&1 == 1, Req: int64(r.Intn(4)), Conn: int64(r.Intn(4))}
+						if wv == 2 {
+							// counters as input: the UNHEALTHY hosts have the lowest counters, healthy ones sit at boundaries
+							// (0, equal, MaxUint32, beyond 32 bits) - health must never be traded for load
+							big := []int64{0, 7, 4294967295, 1 << 40}[(i+pat)%4]
+							if pat%3 == 0 {
+								big = 7 // all healthy hosts equal
+							}
+							if specs[i].Healthy {
+								specs[i].Req, specs[i].Conn = big, big
+							} else {
+								specs[i].Req, specs[i].Conn = 0, 0
+							}
+						}
 					}
 					choice := uint32(2)
 					if pol.name == "least_request" || pol.name == "least_connection" || pol.name == "peak_ewma" {
